@@ -35,7 +35,7 @@ def run(chk):
     chk.configs = ["py3"]
     W = world()
     from . import formulas
-    formulas.sign_formula(chk, W.p, "C03", "R03.7")
+    formulas.deferred(chk, formulas.sign_formula, W.p, "C03", "R03.7")
 
     # ---------------- R03.1
     q = "ecdsa:Private_key.sign"
